@@ -425,6 +425,20 @@ impl TransformerContext {
         scope.vars.insert(name.into(), value.into());
     }
 
+    /// The configured limit on the length (in characters) of a variable's value,
+    /// which guards against uncontrolled growth.
+    pub fn check_var_limit(&self, name: &str, value: &str) -> Result<()> {
+        let len = value.chars().count();
+        if len > self.config.var_limit as usize {
+            return Err(SvgdxError::VarLimitError(
+                name.to_owned(),
+                len,
+                self.config.var_limit,
+            ));
+        }
+        Ok(())
+    }
+
     pub fn push_element(&mut self, el: &SvgElement) {
         let attrs = el.get_attrs();
         self.element_stack.push(el.clone());
